@@ -20,6 +20,8 @@ type Term struct {
 	Callee *types.Func   // call / icall
 	Type   types.Type    // static type of the value where known
 	Site   ssa.Instruction
+	// Embedded: addr term of an embedded (anonymous) struct field
+	Embedded bool
 }
 
 func (t *Term) Key() string {
